@@ -103,6 +103,8 @@ type seqWorld struct {
 	// earlier contents of every key, oldest first (the adversary of C08 may put back anything that was ever stored)
 	versions map[string][]*storedObj
 	locks    map[[32]byte][]byte
+	// earlier values of the lock entry, oldest first (a lock database restored from a backup)
+	lockVersions [][]byte
 	clock   int64
 	insts   []*seqInst
 	entries []*seqEntry
@@ -377,6 +379,7 @@ func (l *instLock) Replace(ctx context.Context, old ctlog.LockedCheckpoint, new 
 			res = "conflict"
 		}
 	} else if out == outOK || out == outErrA {
+		w.lockVersions = append(w.lockVersions, bytes.Clone(cur))
 		w.locks[w.logID] = bytes.Clone(new)
 		applied = true
 	}
